@@ -334,9 +334,32 @@ func init() {
 				meta.GoViolation = append(meta.GoViolation, map[string]any{"signature": sig, "cases": []any{map[string]string{"body": "multipart/form-data with a quoted-printable part"}}, "go_observation": detail, "judgement": sig + " " + detail})
 			}
 		}
+		// urlencoded forms against the model of the urlencoded decoder (meta.Cases: the plain cases, then these)
+		var fterms []string
+		if replay == "" {
+			fr2 := NewRng(seed ^ 0xf0f1)
+			for _, fc := range formCases(fr2, n/4) {
+				fc := fc
+				if fc.Enc != "urlencoded" {
+					continue
+				}
+				fo := runFormDecode(&fc)
+				meta.Cases = append(meta.Cases, map[string]any{"input": map[string]any{"urlencoded_form": fc}, "go": fo})
+				fterms = append(fterms, formCoq(&fc, &fo))
+				meta.Histogram["form/model cases"]++
+				if fo.Err != "" {
+					meta.Histogram["form/model decoder errors"]++
+				}
+			}
+		}
 		meta.NCases = len(cases)
-		meta.Files = writeCases(outDir, "From KV Require Import Model.Base Model.Json Model.Schema Model.Lookup Model.Response Model.Body Exec.C06Exec.", "c06case", "judge", terms, meta.Shard)
+		var off1, off2 []int
+		var f2 []string
+		meta.Files, off1 = writeCasesAt(outDir, "cases", "From KV Require Import Model.Base Model.Json Model.Schema Model.Lookup Model.Response Model.Body Exec.C06Exec.", "c06case", "judge", terms, meta.Shard, 0)
+		f2, off2 = writeCasesAt(outDir, "form", "From KV Require Import Model.Base Model.Json Model.Schema Model.Request Model.ParamCodec Model.FormBody Proofs.FormProofs Exec.C06FormExec.", "c06form", "judge_form", fterms, meta.Shard, len(terms))
+		meta.Files = append(meta.Files, f2...)
+		meta.Offsets = append(off1, off2...)
 		writeMeta(outDir, meta)
-		fmt.Fprintf(os.Stderr, "C06: %d cases\n", len(cases))
+		fmt.Fprintf(os.Stderr, "C06: %d cases (+%d forms)\n", len(cases), len(fterms))
 	}
 }
